@@ -157,6 +157,42 @@ fn bnd_load_cdp_skip_p32() {
     load_cdp_step(32, true);
 }
 
+// @harness id=bnd_load_payload_raw props=C03,C18,C04 kind=bnd tier=quick bound=payload<=24B,input=32B fns=InputScanner::load_payload_raw
+// The unsafe payload read: Ok(v) holds exactly the next `n` bytes of the input (and the reader has advanced by n,
+// having read nothing beyond them); when fewer than n bytes are left the result is UnexpectedEof, never a
+// partially initialised vector.
+#[kani::proof]
+#[kani::unwind(6)]
+fn bnd_load_payload_raw() {
+    let data: [u8; NBUF] = kani::any();
+    let len: usize = kani::any();
+    kani::assume(len <= 32);
+    let mut sc = scanner_over(data, len, 0, None, false, false);
+    let start: usize = kani::any();
+    kani::assume(start <= len);
+    sc.reader.pos = start;
+    let n: usize = kani::any();
+    kani::assume(n <= 24);
+    let r = sc.load_payload_raw(n);
+    match r {
+        Ok(v) => {
+            assert!(start + n <= len, "[C18] a payload is only returned when all of its bytes were there");
+            assert!(v.len() == n, "[C03] the payload has the requested length");
+            let j: usize = kani::any();
+            kani::assume(j < n);
+            assert!(v[j] == data[start + j], "[C03][C08] the payload is exactly the bytes at the reader position");
+            assert!(sc.reader.pos == start + n && sc.reader.max_read_end <= start + n, "[C03][C18] the reader advanced by exactly n bytes and read nothing beyond them");
+            core::mem::forget(v);
+        }
+        Err(e) => {
+            assert!(start + n > len, "[C03][C01] a payload that is completely there is loaded");
+            assert!(e.kind() == std::io::ErrorKind::UnexpectedEof, "[C18] a short payload is an UnexpectedEof (reported by load_cdp as E100)");
+            core::mem::forget(e);
+        }
+    }
+    core::mem::forget(sc);
+}
+
 // @harness id=bnd_collect_rdh_seen props=C14,C04 kind=bnd tier=quick bound=2headers fns=InputScanner::collect_rdh_seen_stats,Stats::rdh_seen,Stats::try_add_link,Stats::try_add_fee_id stubs=flume::Sender::send
 // Per visited header: the RDH count grows by one, its link is reported iff not seen before, its FEE id is
 // reported iff not seen before - independently of each other (two headers with arbitrary link / FEE id).
